@@ -49,8 +49,13 @@ ASSUMPTIONS = [
 ]
 MANIFEST = {
     "technique": "Lean 4 proof (ZFilter model interpreted into the fraction field of Mathlib's Laurent polynomial "
-                 "ring K[T;T⁻¹] and into K⟦X⟧ via C04's A·Y = B·X) + differential tie on expression trees in the "
-                 "exact Fraction regime",
+                 "ring K[T;T⁻¹] for the field laws / substitution / expression trees of any depth, and into K⟦X⟧ "
+                 "via C04's A·Y = B·X with unit denominators for the signal laws) + differential tie on expression "
+                 "trees, law vectors, ==/!=/hash pairs and Cascade/Parallel lists in the exact Fraction regime",
+    "note": "45 theorems, no pending statement; D2 (__ne__ is `num != and den !=`) and D12 (ParallelFilter.denpoly "
+            "is the product while numpoly comes from the shortcut sum) recorded as known with "
+            "proposed_fixes/D2-filter-ne.diff and proposed_fixes/D12-parallel-denpoly.diff; both are stated in "
+            "Lean as theorems about the repaired shape plus a refutation of the shape as coded",
 }
 
 warnings.filterwarnings("ignore", message="StreamTeeHub requesting")
@@ -712,9 +717,16 @@ def compare(c, io, drv):
                 io["eq"], io["ne"], m["eq"], m["ne"], m["ne_fixed"])))
         # the model's hash key (tuple of sorted powers) is tallied only: the property demands `==` => equal hashes,
         # so a finer hash (e.g. over the items) must stay quiet
-        if s is not None and io["eq"] != s["eq"]:
-            out.append(("spec", "== is %r but the normalised numerator/denominator pairs are %s" % (
-                io["eq"], "equal" if s["eq"] else "different")))
+        if s is not None:
+            if c["p"][0] in ("f", "fl") and c["q"][0] in ("f", "fl"):
+                # two filters built directly from coefficients: `==` compares the normalised polynomials
+                if io["eq"] != s["eq"]:
+                    out.append(("spec", "== is %r but the normalised numerator/denominator pairs are %s" % (
+                        io["eq"], "equal" if s["eq"] else "different")))
+            elif io["eq"] and not s["equiv"]:
+                # results of operators: which representation they return is not fixed by the property
+                # (shortcuts, uncancelled factors); equal objects must at least denote the same function
+                out.append(("spec", "== is True but the two filters denote different rational functions"))
         if io["eq"] and not io["hash_equal"]:
             out.append(("spec", "f == g but hash(f) != hash(g)"))
         if io["ne"] == io["eq"]:
